@@ -261,6 +261,7 @@ class Lin:
         self.steps = set()         # locals that are references to radixstack.top()
         self.ptrs = set()          # locals that name the string pointer the buckets are cut from
         self.size_stale = False    # the stack was pushed/popped on this path
+        self.step_gone = False     # ... so that top() and the locals that name it no longer denote the step of this round
 
     # -- what an expression denotes
     def is_step(self, e):
@@ -291,7 +292,7 @@ class Lin:
             return e["ref"]["id"] == self.strptr_param or e["ref"]["id"] in self.ptrs
         return False
 
-    def ev(self, e, arg=False):
+    def ev(self, e, arg=False, _depth=0):
         """arg: e is an argument / initialiser whose value is asked for before its conversion to the parameter type"""
         c = const_int(e)
         if c is not None:
@@ -329,6 +330,8 @@ class Lin:
                     return v
             return None
         f = self.step_field(e)
+        if f is not None and self.step_gone:
+            return None             # the stack was popped / pushed: top() and the locals naming it denote another step now
         if f == "pos":
             return dict(self.pos) if self.pos is not None else None
         if f == "idx":
@@ -336,6 +339,22 @@ class Lin:
         if "callee" in e and e["callee"]["name"] == "size" and e.get("member_call") and self.stack is not None and \
                 ref_of(kids(e)[0]) == self.stack:
             return None if self.size_stale else {"size": 1}
+        if "callee" in e and e.get("op") == "()" and _depth < 4:
+            # f() with f a local lambda `[&stack, depth] { return e; }`: the call denotes e at the point of the call.  What is
+            # captured by reference is the variable itself; a copy is only the variable if that is a parameter that is never
+            # written (depth, memory) - a copy of anything else (the stack!) is a snapshot taken where the lambda is written
+            r = lambda_inline(self.fn, e)
+            if not r:
+                return None
+            le = lambda_of_call(self.fn, e)[1]
+            for c_ in le.get("captures") or []:
+                if not c_.get("byref") and c_.get("id") not in self.sym:
+                    # (lambda_inline has made sure that the variable is never written:) an integer local that is only initialised
+                    dv = decl_of(self.fn, c_.get("id"))
+                    ty = ((dv or {}).get("ty") or "").replace("const ", "").strip()
+                    if dv is None or not (ty in _WIDTH or is_size_t(ty)):
+                        return None
+            return self.ev(dtable._subst(r[0], r[1]) if r[1] else r[0], _depth=_depth + 1)
         ip = match.index_parts(e)
         if ip and self.step_field(ip[0]) == "bkt_size":
             i = self.ev(ip[1])
@@ -640,6 +659,8 @@ class Path:
         self.bsubs = []         # (index value, node) of the reads of rs.bkt_size[...]
         self.lcp_writes = 0
         self.lr_used = set()    # named ranges whose only use is an LCP fill that is understood
+        self.pops = []          # radixstack.pop() calls on this path
+        self.pushes = 0         # radixstack.emplace() / push() calls on this path
 
     def advance(self, run):
         while self.done < len(run.events):
@@ -721,12 +742,15 @@ class Path:
             return
         if k == "UnaryOperator" and z.get("op") == "&" and L.step_field(kids(z)[0]) is not None:
             und(fn, z, "address of a field of the radix step is taken")
+        if k == "MemberExpr" and L.step_gone and L.step_field(z) is not None:
+            und(fn, z, "%s is used after the radix stack was pushed / popped: it no longer names the step of this round" % dtable.describe(z))
         ip = match.index_parts(z) if k == "ArraySubscriptExpr" else None
         if ip and L.step_field(ip[0]) == "bkt_size":
             self.bsubs.append((L.ev(ip[1]), z))
             return
         if "callee" not in z:
             return
+        self.lambda_call(z)
         name = z["callee"]["name"]
         args = kids(z)
         if k in ("CXXConstructExpr", "CXXTemporaryObjectExpr") and len(args) == 1 and self.value(args[0]) is not None:
@@ -775,9 +799,14 @@ class Path:
             if cx.stack is not None and ref_of(recv) == cx.stack:
                 if name == "emplace":
                     self.consume(z, args[1:], "emplace")
-                    L.size_stale = True
+                    L.size_stale = L.step_gone = True
+                    self.pushes += 1
                 elif name in ("pop", "push"):
-                    L.size_stale = True
+                    L.size_stale = L.step_gone = True
+                    if name == "pop":
+                        self.pops.append(z)
+                    else:
+                        self.pushes += 1
                 elif name not in STACK_PURE:
                     und(fn, z, "%s() on the radix stack is not understood" % name)
                 return
@@ -786,6 +815,20 @@ class Path:
             self.consume(z, args[1:], name)
             return
         self.consume(z, args, name)
+
+    def lambda_call(self, z):
+        """a call of a local lambda whose value the linear evaluation does not understand (it is not `return e;` over depth,
+        memory, the stack height and the cursor) must not be able to reach the stack, the step or the string pointer"""
+        cx, L = self.cx, self.L
+        lam = lambda_of_call(cx.fn, z) if z.get("op") == "()" else None
+        if lam is None or L.ev(z) is not None:
+            return
+        if lam[1] is None:
+            und(cx.fn, z, "call of a lambda that is not written in this function: %s" % dtable.describe(z))
+        for c_ in lam[1].get("captures") or []:
+            d = c_.get("id")
+            if d is not None and (d == cx.stack or d == cx.strptr_param or d in L.steps or d in L.ptrs or d in self.lr):
+                und(cx.fn, z, "%s captures %s; what the call does with it is not understood" % (dtable.describe(z), c_.get("name")))
 
     def consume(self, z, args, name):
         cx, L = self.cx, self.L
@@ -822,6 +865,7 @@ class Path:
                     if d is not None:
                         touched.append(d)
             if "callee" in y:
+                self.lambda_call(y)
                 nm = y["callee"]["name"]
                 recv = kids(y)[0] if y.get("member_call") and kids(y) else None
                 if recv is not None and cx.stack is not None and ref_of(recv) == cx.stack and nm not in STACK_PURE:
@@ -1031,6 +1075,12 @@ def check_loop_fn(ck, tu, fn, stackdecl):
             op, lhs, rhs = "!=", inner, None
         elif n["k"] == "BinaryOperator" and n.get("op") in ("==", "!=", "<", "<=", ">", ">="):
             op, lhs, rhs = n["op"], kids(n)[0], kids(n)[1]
+        elif "callee" in n and n.get("member_call") and n["callee"]["name"] == "empty" and kids(n) and ref_of(kids(n)[0]) == cx.stack:
+            # radixstack.empty() is radixstack.size() == 0
+            if state(run).L.size_stale:
+                und(fn, n0, "the radix stack is tested after it was pushed / popped in the same round: %s" % dtable.describe(n0))
+            atoms["size == 0"] = ("eq", {"size": 1})
+            return "size == 0", False
         else:
             return None
         st = state(run)
@@ -1107,6 +1157,34 @@ def check_loop_fn(ck, tu, fn, stackdecl):
         iiv = sym_interval(lf["val"], atoms, "idx0", counts_up=True)
         if biv is None or iiv is None:
             continue            # contradictory tests: no execution takes this path
+        if st.pops:
+            # ---- a round that handles no bucket but removes the topmost step (the two nested loops `while (!empty) { while
+            # (idx < last) {bucket}; pop(); }` written as one loop): nothing else may happen in it, and the step must be finished
+            if len(st.pops) != 1 or st.pushes or st.bsubs or st.handons or st.fills or st.lcp_writes or st.lr or \
+                    L.idx != {"idx0": 1} or L.pos != {"pos0": 1}:
+                # a round that handles bucket idx+1 and then pops: evidence only if every test of the path is a linear
+                # comparison about idx alone, about the bucket size alone, or about neither (they can be met independently)
+                free = all(atoms.get(key) is not None and
+                           (set(atoms[key][1]) - {1} in ({"idx0"}, {"b"}) or not (set(atoms[key][1]) & {"idx0", "b", "pos0"}))
+                           for key in lf["val"])
+                if len(st.pops) == 1 and not st.pushes and free and L.idx == {"idx0": 1, 1: 1} and iiv[0] + 1 < step.nb - 1:
+                    report("BUCKET-RANGE", "%s:pop=%s" % (fn.name, iiv[0] + 1),
+                           "on the path {%s} bucket idx = %d is handled and then the step is popped: buckets %d..%d of the %d-bucket step "
+                           "are never handled" % (dtable.fmt_val(lf["val"]), iiv[0] + 1, iiv[0] + 2, step.nb - 1, step.nb), st.pops[0])
+                    continue
+                und(fn, st.pops[0], "on the path {%s} the radix stack is popped in a round that also works on the step" % dtable.fmt_val(lf["val"]))
+            if iiv[0] >= step.nb - 1:
+                ck.ok("BUCKET-RANGE", where(fn, "{%s}" % dtable.fmt_val(lf["val"])), "the step is popped when all %d buckets are done" % step.nb)
+                continue
+            for key in lf["val"]:
+                info = atoms.get(key)
+                if info is None or set(info[1]) - {1} not in ({"idx0"}, {"size"}):
+                    und(fn, st.pops[0], "on the path {%s} the step is popped; whether all its buckets are done depends on a test that is "
+                        "not about rs.idx alone" % dtable.fmt_val(lf["val"]))
+            report("BUCKET-RANGE", "%s:pop=%s" % (fn.name, iiv[0]),
+                   "on the path {%s} the step is popped with rs.idx = %d: buckets %d..%d of the %d-bucket step are never handled"
+                   % (dtable.fmt_val(lf["val"]), iiv[0], iiv[0] + 1, step.nb - 1, step.nb), st.pops[0])
+            continue
         n_iter += 1
 
         def fixb(l):
@@ -1316,7 +1394,7 @@ class CtorLin(Lin):
         e = strip_casts(e)
         return e is not None and e["k"] == "This"
 
-    def ev(self, e):
+    def ev(self, e, arg=False, _depth=0):
         s = strip_casts(e)
         ip = match.index_parts(s) if s is not None else None
         if ip and self.step_field(ip[0]) == "bkt_size":
@@ -1324,7 +1402,7 @@ class CtorLin(Lin):
             if i is not None and set(i) <= {1}:
                 return {"bkt_size[%d]" % i.get(1, 0): 1}
             return None
-        return Lin.ev(self, e)
+        return Lin.ev(self, e, arg, _depth)
 
 
 def check_steps(ck, tu):
